@@ -404,6 +404,22 @@ def run(ctx):
         cases.append({'ids': ids, 'version': 33, 'edition': 4, 'nsub': rng.choice([1, 2]), 'compressed': False,
                       'forced': '31001=' + '.'.join(map(str, counts)), 'seed': rng.randrange(1, 2 ** 32), 'maxrep': 3,
                       'features': {'empty-middle-repetition': 1}, 'shared': True})
+    # a delayed replication FACTOR that carries an attribute of its own (a bitmap whose zero bit selects the 031001):
+    # a kept composite candidate of a descendant step that is not a match
+    for k in range(ctx.n(12, 120)):
+        a, b2 = rng.sample([4004, 12001, 1001, 2001, 5002, 10004], 2)
+        cnt = rng.choice([0, 1, 2])
+        op = rng.choice([222, 222, 223, 224])
+        nel = 2 + cnt                                   # a, factor, b2 x cnt
+        bits = [rng.randrange(2) for _ in range(nel)]
+        bits[1] = 0
+        zeros = bits.count(0)
+        tail = [33007] * zeros if op == 222 else ([8023] if op == 224 else []) + [op * 1000 + 255] * zeros
+        ids = [a, 101000, 31001, b2, op * 1000, 236000, 101000 + nel, 31031] + tail
+        comp = rng.random() < 0.3
+        cases.append({'ids': ids, 'version': 33, 'edition': 4, 'nsub': rng.choice([1, 2]), 'compressed': comp,
+                      'forced': '31001=%d;31031=%s' % (cnt, '.'.join(map(str, bits))), 'seed': rng.randrange(1, 2 ** 32),
+                      'maxrep': 3, 'features': {'factor-with-attribute': 1}, 'shared': True})
     # the same flat descriptor list in every subset, but a DIFFERENT bitmap per subset (uncompressed): attributes hang
     # on different owners from subset to subset
     for k in range(ctx.n(24, 300)):
